@@ -637,6 +637,26 @@ fn c01_wire(case: &Case) {
     });
 }
 
+/// A struct mounted on the router (fields readable / writable by pointer, methods callable).
+#[derive(Default, serde::Serialize, serde::Deserialize, repe::RepeStruct)]
+#[repe(methods(
+    add(&mut self, by: i64) -> i64,
+    hello(&self) -> String
+))]
+struct Acc {
+    total: i64,
+    label: String,
+}
+impl Acc {
+    fn add(&mut self, by: i64) -> i64 {
+        self.total = self.total.wrapping_add(by);
+        self.total
+    }
+    fn hello(&self) -> String {
+        format!("hello {}", self.label)
+    }
+}
+
 /// One logical response, three servers: the frames must not depend on which server framed them.
 fn c01_servers(case: &Case) {
     use crate::families::ws_common::{Inbox, raw_connect, send_frame, spawn_collector, wait_until};
@@ -683,7 +703,21 @@ fn c01_servers(case: &Case) {
                 };
                 reqs.push((Frame::new(id, b"/d", &payload).with_formats(qf, 0), None, "query-format"));
             }
-            _ => reqs.push((Frame::new(id, &[b'/', 0xff, 0xfe, b'd'], &payload).with_formats(1, 0), None, "non-utf8-query")),
+            7 if simkernel::choose(2) == 0 => reqs.push((Frame::new(id, &[b'/', 0xff, 0xfe, b'd'], &payload).with_formats(1, 0), None, "non-utf8-query")),
+            _ => {
+                // the mounted struct: reads, writes, method calls, bad bodies, unknown members
+                let (q, body): (&[u8], Vec<u8>) = match simkernel::choose(8) {
+                    0 => (b"/st/total", Vec::new()),
+                    1 => (b"/st/total", format!("{}", simkernel::choose(1000)).into_bytes()),
+                    2 => (b"/st/add", format!("{}", simkernel::choose(1000)).into_bytes()),
+                    3 => (b"/st/hello", Vec::new()),
+                    4 => (b"/st/label", b"\"lbl\"".to_vec()),
+                    5 => (b"/st/add", b"\"not a number\"".to_vec()),
+                    6 => (b"/st/missing", b"1".to_vec()),
+                    _ => (b"/st", Vec::new()),
+                };
+                reqs.push((Frame::new(id, q, &body).with_formats(1, 2), None, "struct"));
+            }
         }
     }
     case.sample(json!({"requests": reqs.iter().map(|(f, _, k)| format!("{k} id={:#x} qf={} bf={} {}B", f.id, f.query_format, f.body_format, f.body.len())).collect::<Vec<_>>()}));
@@ -692,6 +726,8 @@ fn c01_servers(case: &Case) {
         let mk_router = || {
             Router::new()
                 .with_erased_handler("/d", Arc::new(Dictated))
+                .with_struct("/st", Acc::default())
+                .0
                 .with_json("/fails", |_v: serde_json::Value| Err((repe::constants::ErrorCode::ApplicationErrorBase, "the handler refuses".to_string())))
         };
         // blocking Server (simulated threads), AsyncServer and WebSocketServer (tasks)
@@ -769,7 +805,7 @@ fn c01_servers(case: &Case) {
             }
             if let Some(e) = dictated {
                 same(&case, &format!("Server, request {k} ({kind})"), &base, &e.encode(), "response dictated by the handler");
-            } else {
+            } else if *kind != "struct" {
                 case.check(per[0].1.unwrap().ec != 0, "round-trip-differs", || format!("request {k} ({kind}) was answered with ec=0"));
             }
         }
